@@ -1,6 +1,8 @@
 #!/bin/bash
 # runs every thorough tier once, sequentially; log to /verif/.scratch/thorough.log
 
+# with "vp run --with-repo" the checks run against the snapshot of /repo
+if [ -n "$VP_RUN_REPO" ]; then export VERIF_REPO="$VP_RUN_REPO"; fi
 for p in "$@"; do
   s=$(date +%s)
   ./check $p thorough > /verif/.scratch/thorough-$p.out 2>&1
